@@ -531,8 +531,45 @@ def r3_tuple_element_index(chk, prog, rule='R3'):
     return n
 
 
+def r3_bit_value_agreement(chk, prog, rule='R3'):
+    """bit-set destinations (std::bitset, vector<bool>, DynamicBitset): the value stored at a position is !mResetFlags
+    (set, or cleared after unsetFlag()) in EVERY branch of assign() - the branch that runs the formatters first stores
+    the same value as the plain branch"""
+    n = 0
+    for f in prog.functions:
+        cls = f.cls or ''
+        if f.short != 'assign' or f.body is None or not cls.startswith('celma::prog_args::detail::TypedArg<'):
+            continue
+        if not any(k in cls for k in ('TypedArg<std::bitset<', 'TypedArg<std::vector<bool', 'DynamicBitset>')):
+            continue
+        stores = []
+        for x in f.walk():
+            if x.get('k') == 'CXXMemberCallExpr' and (x.get('callee') or '').split('::')[-1] in ('set', 'reset') and \
+                    field_name(object_of(x)) == 'mDestVar' and [a_ for a_ in call_args(x) if not a_.get('defarg')]:
+                stores.append((x, call_args(x)))       # (reset() / set() without a position: clear-before-assign)
+            elif x.get('k') in ('CXXOperatorCallExpr', 'BinaryOperator') and x.get('op') == '=':
+                lhs = call_args(x)[0] if x.get('k') == 'CXXOperatorCallExpr' else children(x)[0]
+                rhs = call_args(x)[1] if x.get('k') == 'CXXOperatorCallExpr' else children(x)[1]
+                if mentions_field(lhs, 'mDestVar') and any(y.get('k') in ('CXXOperatorCallExpr', 'ArraySubscriptExpr')
+                                                          for y in walk(lhs)):
+                    stores.append((x, [lhs, rhs]))
+        if not stores:
+            continue
+        for x, a in stores:
+            n += 1
+            val = a[1] if len(a) >= 2 and not a[1].get('defarg') else None
+            ok = val is not None and mentions_field(val, 'mResetFlags') and any(
+                y.get('k') == 'UnaryOperator' and y.get('op') == '!' for y in walk(val))
+            chk.check(ok, rule, f.name, 'the bit at the given position is stored as !mResetFlags in every branch [%s]'
+                      % short_cls(f), f.loc(x), 'this store ignores unsetFlag()' if val is None or not
+                      mentions_field(val, 'mResetFlags') else 'wrong polarity')
+    chk.require(n >= 6, 'stores into bit-set destinations: %d' % n)
+    return n
+
+
 def r3(chk, prog):
     r3_tuple_capacity(chk, prog)
+    r3_bit_value_agreement(chk, prog)
     r3_tuple_element_index(chk, prog)
     eng = c04.make_engine(prog)
     c04.r5_fixed_size(chk, prog, eng, rule='R3')
